@@ -154,6 +154,14 @@ claim('C16',
       'tables are exercised through these identities, not inspected directly.',
       'DESIGN.md 3/C16, 2.4')
 
+claim('C17',
+      'Bounded symbolic verification: real rotatedirections/rotate/irotate with a symbolic parity-consistent coefficient block: '
+      'rotate(f)(p) == f(Q p) at unisolvent points for enumerated invertible non-orthogonal Q (QF_LRA); real inversecoeff with a symbolic '
+      'tail: inv(Nmax)*c and c*inv(Nmax) equal the identity through order Nmax (orders linear in the tail with all entries symbolic; '
+      'quadratic order through one-parameter families, z3 decides the polynomial identity).',
+      'Transformation and leading matrices enumerated; real coefficients in [-1,1]; equality to 1e-8 at the evaluation set; Lmax=4.',
+      'DESIGN.md 3/C17')
+
 na('C01', 'exact oracle is an infinite-state pair Markov chain reached through Brillouin-zone quadrature, LAPACK and hyp1f1/expi; '
           'agreement only to integration accuracy: no algebraic statement a solver can decide (DESIGN 5)')
 na('C06', 'identities hold only for the true lattice Green function of the omega0 network (numerical k-space integration); '
